@@ -14,6 +14,7 @@ pub uninterp spec fn fsub(a: f64, b: f64) -> f64;
 pub uninterp spec fn fmul(a: f64, b: f64) -> f64;
 pub uninterp spec fn fdiv(a: f64, b: f64) -> f64;
 pub uninterp spec fn fneg(a: f64) -> f64;
+pub uninterp spec fn f64_max() -> f64;            // the constant f64::MAX (R-const wrapper vf64_max)
 
 pub broadcast axiom fn axiom_f64_lt(a: f64, b: f64, r: bool)
     ensures #[trigger] vstd::std_specs::cmp::lt_ensures::<f64>(a, b, r) ==> r == flt(a, b);
@@ -52,8 +53,16 @@ pub broadcast axiom fn axiom_f64_neg_total(a: f64)
 pub broadcast axiom fn axiom_f64_lt_irreflexive(a: f64)
     ensures !#[trigger] flt(a, a);
 
+// IEEE negation flips the sign bit only: it is an involution (used for the max-heap on negated distances)
+pub broadcast axiom fn axiom_f64_neg_involution(a: f64)
+    ensures #[trigger] fneg(fneg(a)) == a;
+
+// value fact about the constant: f64::MAX == f64::MAX (it is not NaN)
+pub broadcast axiom fn axiom_f64_max_eq_self()
+    ensures #[trigger] feq(f64_max(), f64_max());
+
 pub broadcast group group_f64_axioms {
-    axiom_f64_lt_irreflexive,
+    axiom_f64_lt_irreflexive, axiom_f64_neg_involution, axiom_f64_max_eq_self,
     axiom_f64_lt, axiom_f64_gt, axiom_f64_le, axiom_f64_ge, axiom_f64_eq, axiom_f64_ne,
     axiom_f64_add, axiom_f64_sub, axiom_f64_mul, axiom_f64_div, axiom_f64_neg,
     axiom_f64_add_total, axiom_f64_sub_total, axiom_f64_mul_total, axiom_f64_div_total, axiom_f64_neg_total,
